@@ -49,6 +49,16 @@ impl Scenario for AggSc {
             }
         };
         p.set("n", n);
+        if class == "agg-block-sizes" {
+            // list sizes at which n or n+1 (the closing pairing term) is a multiple of a plausible batch size
+            let sizes = block_sizes();
+            p.set("n", sizes[(index / 2) as usize % sizes.len()] as i64);
+            p.set("scheme", [2i64, 0, 1][(index / 2 / sizes.len() as u64) as usize % 3]);
+        }
+        if class == "mixed-blocks" {
+            p.set("scheme", (index / 2 % 2) as i64 * 2);
+            p.set("kind", (index / 4 % 2) as i64); // 0 aggregate, 1 multi-signature
+        }
         p.set("msg_class", *x.pick(&[1i64, 2, 3, 4, 16, 17]));
         p.set("dup_msgs", *x.pick(&[0i64, 0, 1, 1, 2, 3, 4, 5, 6])); // 0 distinct, 1 one repeated pair, 2 all equal, 3..6 two distinct but related messages
         p.set("dedup", x.below(2) as i64);
@@ -68,6 +78,12 @@ impl Scenario for AggSc {
         p
     }
     fn run(&self, plan: &Plan, env: &Env, rec: &mut Rec) {
+        if plan.class == "agg-block-sizes" {
+            return run_block_sizes(plan, env.cur, rec);
+        }
+        if plan.class == "mixed-blocks" {
+            return run_mixed_blocks(plan, env.cur, rec);
+        }
         if plan.class.starts_with("multi") {
             run_multi(plan, env.cur, rec)
         } else {
@@ -488,4 +504,133 @@ fn run_multi(plan: &Plan, lib: &dyn Lib, rec: &mut Rec) {
     rec.expect("C07", "fewer-than-two-refused", !one.is_ok(), || "count one | accumulation of a single signature accepted".to_string());
     rec.sample(|| format!("scheme={} g={} n={} arrivals={:?} dedup={}", sch, g.name(), n, arrived, plan.get("dedup")));
     c.finish(rec);
+}
+
+/// n with n or n + 1 a multiple k*m of a batch size m (k = 1..4), up to 1025: where a verifier that works through the
+/// pairing product (or the list) in batches hands over from one batch to the next, or ends exactly on a batch boundary
+pub fn block_sizes() -> Vec<usize> {
+    const M: [usize; 8] = [32, 48, 64, 96, 100, 128, 192, 256];
+    let mut v = vec![];
+    for m in M {
+        for k in 1..=4 {
+            for d in [-2isize, -1, 0, 1] {
+                let n = (m * k) as isize + d;
+                if n > 64 && n <= 1025 {
+                    v.push(n as usize);
+                }
+            }
+        }
+    }
+    v.sort();
+    v.dedup();
+    // sizes that are a boundary for MANY batch sizes first (n + 1 = 384 = 2*192 = 3*128 = 4*96 = 6*64 = 8*48 = 12*32 ...):
+    // a tier that only has time for a prefix of the list still meets the most likely hand-over points
+    let score = |n: usize| -> usize { M.iter().map(|m| ((n + 1) % m == 0) as usize * 2 + (n % m == 0) as usize).sum() };
+    v.sort_by_key(|n| (std::cmp::Reverse(score(*n)), *n));
+    v
+}
+
+/// C06 / C19: honest aggregates of exactly n signatures over distinct messages at the batch-boundary sizes, exact list
+/// (must verify) and one message altered in the last, the first and the middle entry (must fail)
+fn run_block_sizes(plan: &Plan, lib: &dyn Lib, rec: &mut Rec) {
+    let g = grp_of(plan.get("g"));
+    let scheme = plan.get("scheme") as u8;
+    let n = plan.get("n").clamp(2, 1100) as usize;
+    // four keys take turns; every message is distinct
+    let keys: Vec<(Vec<u8>, Vec<u8>)> = (0..4u64).filter_map(|i| { let sk = key_of_class(rec, lib, g, 4 + i % 2, plan.seed.wrapping_add(i)); rec.call(lib, g, Op::PublicKey, &[&sk]).first().map(|pk| (sk, pk.to_vec())) }).collect();
+    if keys.len() != 4 {
+        return;
+    }
+    let mut list: Vec<(Vec<u8>, Vec<u8>)> = vec![];
+    let mut sigs: Vec<Vec<u8>> = vec![];
+    for i in 0..n {
+        let (sk, pk) = &keys[i % 4];
+        let msg = format!("entry {} of {}", i, n).into_bytes();
+        let Some(sig) = rec.call(lib, g, Op::Sign, &[sk, &[scheme], &msg]).first().map(|v| v.to_vec()) else { return };
+        sigs.push(sig);
+        list.push((pk.clone(), msg));
+    }
+    let refs: Vec<&[u8]> = sigs.iter().map(|s| s.as_slice()).collect();
+    let Some(agg) = rec.call(lib, g, Op::Aggregate, &refs).first().map(|v| v.to_vec()) else {
+        rec.expect("C06", "honest-aggregate-verifies", false, || format!("aggregate n={} scheme={} g={} | aggregation of {} honest signatures failed", n, scheme_name(scheme), g.name(), n));
+        return;
+    };
+    rec.case(&[6, g as u64, scheme as u64, n as u64, 500], true);
+    let out = agg_verify(rec, lib, g, &agg, &list);
+    rec.expect("C06", "honest-aggregate-verifies", out.is_ok(), || format!("exact-list n={} scheme={} g={} | an honest aggregate of {} signatures over distinct messages is rejected: {:?}", n, scheme_name(scheme), g.name(), n, out));
+    let rev: Vec<(Vec<u8>, Vec<u8>)> = list.iter().rev().cloned().collect();
+    let out = agg_verify(rec, lib, g, &agg, &rev);
+    rec.expect("C06", "honest-aggregate-verifies", out.is_ok(), || format!("reversed-list n={} scheme={} g={} | rejected: {:?}", n, scheme_name(scheme), g.name(), out));
+    for pos in [n - 1, 0, n / 2] {
+        let mut l2 = list.clone();
+        l2[pos].1.push(b'!');
+        let out = agg_verify(rec, lib, g, &agg, &l2);
+        rec.expect("C06", "altered-list-rejected", !out.is_ok(), || format!("message-altered-at-{} n={} scheme={} g={} | the aggregate verifies against a list with one message altered", pos, n, scheme_name(scheme), g.name()));
+    }
+    // one pair dropped / one pair added at the end
+    let out = agg_verify(rec, lib, g, &agg, &list[..n - 1]);
+    rec.expect("C06", "altered-list-rejected", !out.is_ok(), || format!("last-pair-dropped n={} scheme={} g={} | verifies", n, scheme_name(scheme), g.name()));
+    rec.sample(|| format!("batch-boundary size n={} scheme={} g={}", n, scheme_name(scheme), g.name()));
+}
+
+/// C06 / C07: long lists made of RUNS of two schemes. Run lengths are what a list processed in memory blocks would use:
+/// 2^k / size_of::<Signature<C>>() for the 4 KiB .. 1 MiB blocks (the size is one any caller can compute), the same for
+/// the serialized sizes, and powers of two. [A x a, B x a], [A x a, B x b], [A x a, B x a, A x a]: all refused.
+fn run_mixed_blocks(plan: &Plan, lib: &dyn Lib, rec: &mut Rec) {
+    let g = grp_of(plan.get("g"));
+    let scheme = plan.get("scheme") as u8;
+    let other = if scheme == 0 { 2u8 } else { 0 };
+    let multi = plan.get("kind") == 1;
+    let op = if multi { Op::MultiSig } else { Op::Aggregate };
+    let prop = if multi { "C07" } else { "C06" };
+    let sk = key_of_class(rec, lib, g, 4, plan.seed);
+    let sk2 = key_of_class(rec, lib, g, 5, plan.seed ^ 9);
+    let msg = b"one message for every signer".to_vec();
+    let sig_a = rec.call(lib, g, Op::Sign, &[&sk, &[scheme], &msg]).first().map(|v| v.to_vec());
+    let sig_a2 = rec.call(lib, g, Op::Sign, &[&sk2, &[scheme], &msg]).first().map(|v| v.to_vec());
+    let sig_b = rec.call(lib, g, Op::Sign, &[&sk2, &[other], &msg]).first().map(|v| v.to_vec());
+    let (Some(sig_a), Some(sig_a2), Some(sig_b)) = (sig_a, sig_a2, sig_b) else { return };
+    let mem = rec.call(lib, g, Op::MemLayout, &[]).first().map(|b| u64::from_le_bytes(b[..8].try_into().unwrap_or([0; 8])) as usize).unwrap_or(0);
+    let mut lens: Vec<usize> = vec![];
+    for size in [mem, g.sig_len(), g.sig_len() + 1, g.sig_len() * 2, g.sig_len() * 3] {
+        if size == 0 {
+            continue;
+        }
+        for k in 12..=18u32 {
+            let a = (1usize << k) / size;
+            if (2..=2200).contains(&a) {
+                lens.push(a);
+            }
+        }
+    }
+    lens.extend([64usize, 128, 256, 512, 1024, 2048]);
+    lens.sort();
+    lens.dedup();
+    let mut x = Xo::derive(plan.seed, &[0xB10C]);
+    let build = |runs: &[(usize, bool)]| -> Vec<&[u8]> {
+        let mut v: Vec<&[u8]> = vec![];
+        for (len, foreign) in runs {
+            for j in 0..*len {
+                v.push(if *foreign { sig_b.as_slice() } else if j % 2 == 0 { sig_a.as_slice() } else { sig_a2.as_slice() });
+            }
+        }
+        v
+    };
+    for a in lens.iter().copied() {
+        let b = lens[x.below(lens.len() as u64) as usize];
+        for (what, runs) in [("A^a B^a", vec![(a, false), (a, true)]), ("A^a B^b", vec![(a, false), (b, true)]), ("A^a B^a A^a", vec![(a, false), (a, true), (a, false)]), ("B^a A^a", vec![(a, true), (a, false)])] {
+            if runs.iter().map(|r| r.0).sum::<usize>() > 4500 {
+                continue;
+            }
+            let args = build(&runs);
+            let o = rec.call(lib, g, op, &args);
+            rec.case(&[if multi { 7 } else { 6 }, g as u64, scheme as u64, a as u64, what.len() as u64], true);
+            rec.expect(prop, "mixed-schemes-refused", !o.is_ok(), || format!("mixed runs {} a={} b={} g={} | a list of {} signatures with whole runs of {} signatures among {} ones was {}", what, a, b, g.name(), args.len(), scheme_name(other), scheme_name(scheme), if multi { "accumulated" } else { "aggregated" }));
+        }
+        // the honest list of the same length is still accepted (the refusal above is not a size limit)
+        let args = build(&[(2 * a.min(1100), false)]);
+        let o = rec.call(lib, g, op, &args);
+        rec.expect(prop, "same-scheme-list-accepted", o.is_ok(), || format!("honest-long-list n={} g={} scheme={} | refused: {:?}", args.len(), g.name(), scheme_name(scheme), o));
+    }
+    rec.sample(|| format!("mixed-scheme runs at {} block lengths (in-memory signature size {} B) g={} kind={}", lens.len(), mem, g.name(), if multi { "multi" } else { "aggregate" }));
 }
